@@ -31,7 +31,13 @@ def tasks(ctx, quick):
         rho = rng.choice([0.0, 1.0, 2.5, 7.0, rng.uniform(0.1, 20)]) if i % 9 else 0.0
         form = i % 3
         lam = rng.choice(WAVELENGTHS) if form == 0 else ([rng.choice(WAVELENGTHS)] if form == 1 else sorted(rng.sample(WAVELENGTHS, rng.randint(2, 5))))
-        items.append({"id": "t%d" % i, "kind": "comp", "materials": mats, "weights": ws, "density": rho, "wavelength": lam})
+        if i % 8 == 3:           # weights as tiny absolute amounts (picomoles) / a residual-gas density
+            k = rng.choice([1e-12, 1e-9, 1e-15])
+            ws = [w * k for w in ws]
+        if i % 8 == 7:
+            rho = rng.choice([1e-10, 1e-12, 1e-7])
+        items.append({"id": "t%d" % i, "kind": "comp", "materials": mats, "weights": ws, "density": rho, "wavelength": lam,
+                      "again": i % 4 == 2})
     return items
 
 
